@@ -619,8 +619,15 @@ func main() {
 		"violations":  violations,
 	}
 	evb, _ := json.MarshalIndent(ev, "", " ")
-	os.MkdirAll(filepath.Join(root, "evidence"), 0o755)
-	if err := os.WriteFile(filepath.Join(root, "evidence", id+".json"), evb, 0o644); err != nil {
+	// the tooling that runs checks against deliberately modified copies of the library (seeded / benign
+	// changes) points VERIF_EVIDENCE_DIR at a scratch directory, so that /verif/evidence only ever holds
+	// records of runs against /repo itself; the registered commands never set it
+	evDir := filepath.Join(root, "evidence")
+	if d := os.Getenv("VERIF_EVIDENCE_DIR"); d != "" {
+		evDir = d
+	}
+	os.MkdirAll(evDir, 0o755)
+	if err := os.WriteFile(filepath.Join(evDir, id+".json"), evb, 0o644); err != nil {
 		fail2("writing evidence: %v", err)
 	}
 
